@@ -5,3 +5,5 @@ P="$1"; PATCH="$2"; TIER="${3:-quick}"
 cd /repo && git apply "$PATCH" || { echo "patch does not apply"; exit 3; }
 cd /verif && ./check "$P" --tier "$TIER" 2>&1 | tail -4
 git -C /repo checkout -- . 
+# the evidence files were rewritten by a run on a CHANGED tree: restore the committed ones
+git -C /verif checkout -- evidence 2>/dev/null
